@@ -4,6 +4,10 @@
 import sys, json, os
 V = os.path.dirname(os.path.dirname(os.path.abspath(__file__)))
 pid = sys.argv[1]
+EXTRA = ""
+if len(sys.argv) > 2 and sys.argv[2] == "bold":
+    EXTRA = """This is a SECOND round: other people already delivered mild refactorings (extracted helpers, block sizes, hashing once instead of twice, cast modernisation). Be BOLDER while staying strictly behaviour-preserving. Wanted now, for example: renaming or re-organising PRIVATE members, private nested types and file-local helpers (also ones that look central, like a tree's root pointer, a pool's free list, a queue's head/tail, a thread pool's worker list); replacing one system or library call by an equivalent one (pipe+fcntl by pipe2, usleep by nanosleep, clock ids, memcpy by Memory::copy or loops, sprintf variants, strtol variants with identical results, sem_timedwait by sem_clockwait, eventfd helpers); choosing a different private data structure or layout where the public behaviour is identical (array instead of linked free list, index instead of pointer, merged or split private structs, a flag packed differently); changing internal constants, initial capacities, growth and shrink policies, spin counts, idle timeouts; reordering independent member declarations. Each change should alter 15-60 lines.
+"""
 d = [json.loads(l) for l in open(os.path.join(V, "properties.jsonl")) if json.loads(l)["id"] == pid][0]
 wt = "/tmp/benign-%s" % pid
 txt = f"""You are given a git worktree of the C++ library craflin/libnstd at {wt} (sources in include/nstd and src, unit tests in test/UnitTest, CMake build). Work ONLY inside {wt}. Do NOT read, list or modify /verif or /repo (they are off limits), and do not run `git worktree`, `git commit`, `git push` or `git stash`. Do not leave background processes behind.
@@ -23,7 +27,7 @@ YOUR TASK: produce THREE different, realistic source changes to the library that
   - a different but equally valid internal policy: growth factor or initial capacity of a buffer, allocation block size of a pool, hash function constants or bucket count defaults, the order in which independent internal bookkeeping is updated, retry/back-off details, internal buffer sizes;
   - a performance tweak or clean-up that changes the allocation pattern, the number of internal comparisons (within the documented bounds), the addresses that get reused, or the timing, but no observable result that the documentation or the statement above promises;
   - tightened internal assertions, added const / noexcept-free qualifiers, replaced macros by inline functions, modernised casts.
-Do NOT change any public signature, documented result, error reporting, or anything the statement above promises; do not make comment-only or whitespace-only changes; each change should alter between a few and about 40 lines of real code.
+{EXTRA}Do NOT change any public signature, documented result, error reporting, or anything the statement above promises; do not make comment-only or whitespace-only changes; each change should alter between a few and about 40 lines of real code.
 
 For each change k in (1, 2, 3) deliver, under {wt}/out/ :
   - change<k>.diff : the patch, produced with `git diff` from the clean worktree (so that `git apply change<k>.diff` works in a clean checkout);
@@ -33,5 +37,5 @@ VERIFY YOURSELF before reporting, for each change: with the change applied every
 
 Final message: for each change one short paragraph (file/function touched, kind, why behaviour is preserved).
 """
-open("/tmp/benignprompt-%s.txt" % pid, "w").write(txt)
+open("/tmp/benignprompt-%s.txt" % pid, "w").write(txt.replace("{EXTRA}", EXTRA))
 print(wt)
